@@ -58,6 +58,7 @@ def _case(draw, tier):
         # (MPAS-like sources: the default rule in two thirds of the cases, decided by its own draw)
         "rule": ("triangular", 4) if (fam == "mpas" and draw(st.integers(0, 2)) > 0) else draw(sampled_from([("triangular", 4)] + RULES)),
         "history": draw(st.lists(sampled_from(RULES), max_size=2)),
+        "rescale_returned": draw(sampled_from([False, False, True])),
         "coef": [draw(st.integers(-3, 3)), draw(st.integers(-3, 3))],
         "name": draw(sampled_from(["psi", "v", None])),
         "source": "mpas" if fam == "mpas" else "topology",
@@ -130,8 +131,14 @@ def run_case(case, ctx):
     da, arr_live = datagen.uxda(g, spec, "n_face", g.n_face, name=case["name"], with_coords=True)
     arr = np.array(arr_live, copy=True)  # the expectation is computed from a private copy of the data
     # history of earlier calls on the same grid
-    for hr, ho in [tuple(h) for h in case["history"]]:
+    for hi_, (hr, ho) in enumerate([tuple(h) for h in case["history"]]):
         da.integrate(hr, ho)
+        if case.get("rescale_returned") and hi_ == 0:
+            # ... and a caller who converts the areas a call handed back (its own result) to square kilometres in place
+            for got_a in (g.compute_face_areas(hr, ho)[0], g.compute_face_areas(rule, order)[0], g.compute_face_areas()[0]):
+                if isinstance(got_a, np.ndarray) and got_a.flags.writeable:
+                    got_a *= 6371.0**2
+            ctx.label("history:returned-areas-rescaled-in-place")
     style = case.get("style", "positional")
 
     def integ(x):
